@@ -238,7 +238,7 @@ macro_rules! read_event_impl {
                     // But we still need to remove BOM for consistency with no encoding
                     // feature enabled path
                     #[cfg(feature = "encoding")]
-                    if let Some(encoding) = $reader.detect_encoding() $(.$await)? ? {
+                    if let Some(encoding) = $reader.detect_encoding(&mut $self.state.offset) $(.$await)? ? {
                         if $self.state.encoding.can_be_refined() {
                             $self.state.encoding = crate::reader::EncodingRef::BomDetected(encoding);
                         }
@@ -246,7 +246,7 @@ macro_rules! read_event_impl {
 
                     // Removes UTF-8 BOM if it is present
                     #[cfg(not(feature = "encoding"))]
-                    $reader.remove_utf8_bom() $(.$await)? ?;
+                    $reader.remove_utf8_bom(&mut $self.state.offset) $(.$await)? ?;
 
                     $self.state.state = ParseState::InsideText;
                     continue;
@@ -944,11 +944,11 @@ enum ReadTextResult<'r, B> {
 trait XmlSource<'r, B> {
     /// Removes UTF-8 BOM if it is present
     #[cfg(not(feature = "encoding"))]
-    fn remove_utf8_bom(&mut self) -> io::Result<()>;
+    fn remove_utf8_bom(&mut self, position: &mut u64) -> io::Result<()>;
 
     /// Determines encoding from the start of input and removes BOM if it is present
     #[cfg(feature = "encoding")]
-    fn detect_encoding(&mut self) -> io::Result<Option<&'static Encoding>>;
+    fn detect_encoding(&mut self, position: &mut u64) -> io::Result<Option<&'static Encoding>>;
 
     /// Read input until start of markup (the `<`) is found or end of input is reached.
     ///
